@@ -386,9 +386,52 @@ fn link_name(attrs: &[Attribute]) -> Option<String> {
     None
 }
 
+fn flat_tokens(ts: proc_macro2::TokenStream, out: &mut Vec<String>) {
+    for tt in ts {
+        match tt {
+            proc_macro2::TokenTree::Group(g) => {
+                let (o, c) = match g.delimiter() {
+                    proc_macro2::Delimiter::Parenthesis => ("(", ")"),
+                    proc_macro2::Delimiter::Brace => ("{", "}"),
+                    proc_macro2::Delimiter::Bracket => ("[", "]"),
+                    proc_macro2::Delimiter::None => ("", ""),
+                };
+                if !o.is_empty() {
+                    out.push(o.to_string());
+                }
+                flat_tokens(g.stream(), out);
+                if !c.is_empty() {
+                    out.push(c.to_string());
+                }
+            }
+            proc_macro2::TokenTree::Punct(p) => out.push(p.as_char().to_string()),
+            other => out.push(other.to_string().replace('\n', "\\n")),
+        }
+    }
+}
+
 fn main() {
     let mut rc = 0;
-    for path in std::env::args().skip(1) {
+    let args: Vec<String> = std::env::args().skip(1).collect();
+    if args.first().map(String::as_str) == Some("--tokens") {
+        // one token per line; doc comments tokenise as #[doc = "..."] attributes
+        for path in &args[1..] {
+            let text = std::fs::read_to_string(path).unwrap_or_default();
+            match text.parse::<proc_macro2::TokenStream>() {
+                Ok(ts) => {
+                    let mut out = vec![];
+                    flat_tokens(ts, &mut out);
+                    println!("{}", out.join("\n"));
+                }
+                Err(e) => {
+                    println!("TOKENIZE-ERROR {e}");
+                    rc = 1;
+                }
+            }
+        }
+        std::process::exit(rc);
+    }
+    for path in args {
         let text = match std::fs::read_to_string(&path) {
             Ok(t) => t,
             Err(e) => {
